@@ -817,6 +817,13 @@ func (c *wsConn) handleWsConn(ctx context.Context) {
 		case rerr := <-c.readError:
 			action = "read-error"
 
+			// the connection is unusable until the reconnect goroutine swaps it:
+			// requests accepted meanwhile must fail fast instead of being written
+			// to the dead connection and waiting forever
+			c.errLk.Lock()
+			c.incomingErr = rerr
+			c.errLk.Unlock()
+
 			log.Debugw("websocket error", "error", rerr, "lastAction", action, "time", time.Since(start))
 			if !c.tryReconnect(ctx) {
 				return // failed to reconnect
